@@ -34,7 +34,9 @@ import compat  # noqa: F401
 import sched
 from runner import Infra
 
-RULE = ('case = per-host limit M in 1..2(3), max_count, N<=5 client programs of 1..3 rounds over H<=2 host keys '
+RULE = ('front ends (oracle only): 2-3 real WebSession workers over the real pool / the real HTTPProxyConnectionPool (CONNECT + TLS tunnels), '
+        'keep-alive and closing responses, seeded deterministic loop; then: '
+        'case = per-host limit M in 1..2(3), max_count, N<=5 client programs of 1..3 rounds over H<=2 host keys '
         '(close / connect-failure / keep-alive, no_wait_release or direct release) x a schedule of task steps, '
         'task.cancel() and remote closes chosen by the seeded scheduler (quick) or enumerated exhaustively over all '
         'interleavings; plus a keep-alive family over 2-3 host keys where the peer closes connections that sit idle in a pool; '
@@ -775,6 +777,10 @@ def norm_case(case):
 
 
 def replay(ctx, case, kind=None, where=None):
+    if case.get('stream') in ('session', 'proxy'):
+        import c12_sessions
+        c12_sessions.check(ctx, case)
+        return
     c, schedule = norm_case(case)
     run_batch(ctx, [(c, then_finish(schedule))], tags=['replay'])
 
@@ -784,6 +790,15 @@ def run(ctx):
     for item in load_corpus(ctx):
         replay(ctx, item['case'] if 'case' in item else item)
     rng = ctx.rng
+    # the pool's real callers (no model): WebSession / http Session over the pool, and the HTTP proxy pool
+    import c12_sessions
+    frng = ctx.subrng('front')
+    for stream in ('session', 'proxy'):
+        for i in range(ctx.scale(250, 4000)):
+            fc = c12_sessions.gen_case(frng, stream)
+            c12_sessions.check(ctx, fc)
+            if i == 0:
+                ctx.sample(fc)
     # sampled schedules
     items = []
     for i in range(ctx.scale(5000, 60000)):
@@ -852,6 +867,11 @@ def random_sub(rng):
 
 
 def search(ctx):
+    import c12_sessions
+    frng = ctx.subrng('front-search')
+    for stream in ('session', 'proxy'):
+        for i in range(ctx.scale(100, 400)):
+            c12_sessions.check(ctx, c12_sessions.gen_case(frng, stream))
     rng = ctx.subrng('search')
     items = []
     for i in range(ctx.scale(300, 1500)):
